@@ -110,7 +110,7 @@ NearMillionth(m, e, v, sd) ==
   \E lhs \in {(m \div P2(sh)) * 15625} :           \* tau * 10^6 = lhs * 2^(e + sh + 6)
   \E d \in {(-sd) - (e + sh + 6)} :               \* v * 2^-sd = (v * 2^d) * 2^(e + sh + 6)
     /\ m > 0 /\ d >= 0 /\ Bits(v) + d <= 30
-    /\ Abs(lhs - v * P2(d)) * 512 <= lhs
+    /\ Abs(lhs - v * P2(d)) <= lhs \div 512
 THRok(r) ==
   \E n \in {Len(r.d)} :
   /\ ~r.err /\ Len(r.om) = n /\ Len(r.oe) = n /\ n = Size(r.dn) /\ n > 0
